@@ -2,6 +2,7 @@ package main
 
 import (
 	"fmt"
+	"go/types"
 	"strings"
 
 	"golang.org/x/tools/go/ssa"
@@ -269,6 +270,7 @@ func runC17(c *Ctx, r *Report, tier string) {
 			}
 		}
 		r.Check(nCut >= 1, "WRAP", wn, "cut sites", c.pos(wt.Pos()), "found", "no line[:pos] cut found")
+		c.wrapCutRule(r, "WRAP", wt, lVal)
 	}
 
 	// ---- TERM
@@ -282,4 +284,56 @@ func runC17(c *Ctx, r *Report, tier string) {
 		}
 	}
 	r.Check(okT, "TERM", c.fname(gai), "fallback width", c.pos(gai.Pos()), "terminalColumns = 80 exactly when terminalColumns ≤ 0", "no guarded fallback store of 80 found")
+}
+
+// wrapCutRule: where wrapText cuts a line, the remainder starts exactly where the emitted piece ends
+// (line[:pos] / line[pos:]): no character is dropped or repeated at a break. lVal (may be nil) is the
+// wrap width, whose slice line[:l] is only searched, not emitted.
+func (c *Ctx) wrapCutRule(r *Report, rule string, wt *ssa.Function, lVal ssa.Value) {
+	wn := c.fname(wt)
+	if lVal == nil {
+		for _, b := range c.blocks(wt) {
+			for _, in := range b.Instrs {
+				if p, ok := in.(*ssa.Phi); ok && (c.term(p) == "phi{10 | P1}" || c.term(p) == "phi{P1 | 10}") {
+					lVal = p
+				}
+			}
+		}
+	}
+	n := 0
+	for _, b := range c.blocks(wt) {
+		for _, in := range b.Instrs {
+			sl, ok := in.(*ssa.Slice)
+			if !ok || sl.High == nil || sl.Low != nil {
+				continue
+			}
+			if lVal != nil && c.resolve(sl.High) == c.resolve(lVal) {
+				continue
+			}
+			if bt, ok := sl.X.Type().Underlying().(*types.Basic); !ok || bt.Info()&types.IsString == 0 {
+				continue
+			}
+			n++
+			// the complementary remainder of the same string
+			found, okSame := false, false
+			var lowT string
+			for _, b2 := range c.blocks(wt) {
+				for _, in2 := range b2.Instrs {
+					s2, ok := in2.(*ssa.Slice)
+					if !ok || s2.Low == nil || s2.High != nil || c.resolve(s2.X) != c.resolve(sl.X) {
+						continue
+					}
+					found = true
+					lowT = c.term(s2.Low)
+					if c.resolve(s2.Low) == c.resolve(sl.High) || c.term(s2.Low) == c.term(sl.High) {
+						okSame = true
+					}
+				}
+			}
+			r.Check(found && okSame, rule, wn, "remainder starts where the emitted piece ends", c.ipos(in), "line[:pos] is emitted and line[pos:] continues", "the piece ends at "+trunc(c.term(sl.High), 60)+" but the remainder starts at "+trunc(lowT, 60)+": text at a break is dropped or repeated")
+		}
+	}
+	if n == 0 {
+		r.Fail(rule, wn, "cut sites", c.pos(wt.Pos()), "no line[:pos] cut found")
+	}
 }
